@@ -405,3 +405,15 @@ Theorem client_read_ee_reject fixed c data m :
   ee_unmarshal data = Ok (Some m) -> ee_cp m <> 0 -> cl_vers c < V13 \/ ee_alpn m = [] ->
   client_read_ee fixed c data = Err a_unsupported_extension \/ client_read_ee fixed c data = Err a_no_application_protocol.
 Proof. intros Eu Hcp H. unfold client_read_ee. rewrite Eu. cbn [bind]. now apply rsp_reject. Qed.
+
+(* the client's EncryptedExtensions is the FIRST message of its second flight, before any Certificate / CertificateVerify *)
+Theorem client_ee_first (fin : bytes -> bytes) tr st certs m sent tr2 :
+  send_client_ee st = Ok [m] -> client_flight fin tr st certs = Ok (sent, tr2) ->
+  sent = m :: certs ++ [finished_msg fin tr2] /\ tr2 = tr ++ m ++ concat certs.
+Proof.
+  intros Es Ef. destruct (client_flight_transcript fin tr st certs sent tr2 [m] Es Ef) as [-> ->].
+  cbn [concat app]. rewrite app_nil_r. split; reflexivity.
+Qed.
+(* resumption makes no difference *)
+Lemma client_read_ee_conn_psk psk fixed c data : client_read_ee_conn psk fixed c data = client_read_ee fixed c data.
+Proof. reflexivity. Qed.
